@@ -142,6 +142,18 @@ def gen_for(stream, seed):
         sc = scen.gen_scenario(seed, "shocked", nev=rng.choice([1, 2, 3]), T=rng.choice([16, 24]), max_occ=3)
         sc["stream"] = "early"
         return sc
+    if stream == "earlydt":
+        # step length > 1 and events that occur (and may even end) within the first step: the second step, at
+        # t = dt, already sees their shock / reconstruction demand
+        dt = rng.choice([2, 3, 5, 7])
+        sc = scen.gen_scenario(seed, "shocked", dt=dt, nev=rng.choice([1, 1, 2]), T=rng.choice([8, 12]), max_occ=dt,
+                               types=rng.choice([["rebuild"], ["rebuild", "recovery"], ["recovery", "arbitrary"], ["rebuild", "arbitrary"]]))
+        for ev in sc["events"]:
+            ev["dur"] = rng.choice([1, 1, 2, dt])
+            if ev["type"] == "rebuild" and rng.random() < 0.5:
+                ev["rebuild_tau"] = rng.choice([1, 2, dt + 1, 30])
+        sc["stream"] = "earlydt"
+        return sc
     if stream == "negfd":
         # a balanced table with some negative final-demand entries ("changes in inventories")
         sc = scen.gen_scenario(seed, "shocked", nev=rng.choice([1, 2]), T=rng.choice([16, 24]), max_occ=3, kind="dense")
